@@ -146,6 +146,15 @@ Http::ContentLengthInterpreter::checkList(const String &list)
             break;
         // keep going after a duplicate value to find conflicting ones
     }
+
+    // strListGetItem() also reports "no more items" when it meets a list
+    // member made of whitespace it does not skip (e.g., VT or FF). Do not
+    // silently ignore the members behind such a member.
+    if (!sawBad && pos && *pos) {
+        debugs(55, debugLevel, "WARNING: Malformed list member in" << Raw("Content-Length", list.rawBuf(), list.size()));
+        sawBad = true;
+    }
+
     return false; // no need to keep this list field; it will be sanitized away
 }
 
